@@ -40,14 +40,14 @@ public:
 
     void notify(Args... args) {
         struct CachedDetails {
-            Observer_t *observer;
+            std::shared_ptr<Observer_t> observer; // keeps the observer alive during the round
             SubscriptionId subscriptionId;
         };
 
         std::forward_list<CachedDetails> cachedDetails;
 
         for (auto &details : m_observers)
-            cachedDetails.emplace_front(details.observer.get(), details.subscriptionId);
+            cachedDetails.emplace_front(details.observer, details.subscriptionId);
 
         for (auto [observer, subscriptionId] : cachedDetails) {
             if (isSubscriptionIdValid(subscriptionId)) {
@@ -83,7 +83,7 @@ private:
 
 private:
     struct ObserverDetails {
-        ObserverPtr_t observer;
+        std::shared_ptr<Observer_t> observer;
         SubscriptionId subscriptionId;
     };
 
